@@ -96,8 +96,14 @@ class ForEachVariableDefinition:
 
     def evaluate(self, context: RuntimeContext) -> FieldValue:
         """Disable value caching for this context and evaluate the expression"""
+        previous = context.recalculate_every_time
         context.recalculate_every_time = True
-        ret = self.expression.render(context)
+        try:
+            ret = self.expression.render(context)
+        finally:
+            # the flag is only meant for the evaluation of the for_each expression;
+            # fields, nested templates and friends must keep their iterators
+            context.recalculate_every_time = previous
         if not isinstance(ret, PluginResultIterator):
             raise DataGenValueError(
                 f"`for_each` value must be a DatasetIterator for `{self.varname}`",
